@@ -19,9 +19,8 @@ for patch in sorted(glob.glob(os.path.join(root, "C??", "*", "patch.diff"))):
         ov = None
     if ov is None:
         print(name, "does not apply"); continue
-    stats = {}
-    for rel, src in ov.items():
-        equiv.substitute_equivalents(rel, ast.parse(src), refs, stats)
+    stats = Repo("/repo", overlay=ov).equiv_stats
+    if stats.get("errors"): print("   ERRORS", stats["errors"])
     ch = [x.split("::")[1] for x in stats.get("changed", [])]
     pr = [x.split("::")[1] for x in stats.get("proved_equivalent", [])]
     tot[0] += len(ch); tot[1] += len(pr)
